@@ -243,6 +243,21 @@ func runC10(rc *RunCtx) {
 				}
 			}
 		}
+		// accounts whose address bytes merely resemble the holder's (zero-extended to 32 bytes, prefix-extended,
+		// truncated) are other accounts
+		if e, err := StdEngine(rc, false, false, nil); err == nil {
+			for ti, at := range adminTypes {
+				if at.Role == "pending" {
+					e.Exec(Tx{Msgs: msgs1(&ct.MsgUpdateOwner{From: e.M.Owner, NewOwner: Acct(OtherIx)})})
+				}
+				holder := map[string]string{"owner": e.M.Owner, "am": e.M.AM, "pauser": e.M.Pauser, "tc": e.M.TC, "pending": e.M.Pending}[at.Role]
+				hb := addrBytes(holder)
+				for li, look := range [][]byte{append(append([]byte{}, hb...), make([]byte, 12)...), append(append([]byte{}, hb...), 1, 2, 3), hb[:19], append(make([]byte, 12), hb...)} {
+					r := e.Exec(Tx{Msgs: msgs1(at.Make(e.M, Bech(look), ti)), Note: "C10 look-alike submitter"})
+					rc.Cov.Cell("C10_lookalike", fmt.Sprintf("%s/shape%d/%v", at.Name, li, r.OK))
+				}
+			}
+		}
 		// a role update that is rolled back (a later message of the same transaction fails) must change nothing:
 		// the would-be holder is still refused, the real holder still served
 		for ui := 0; ui < 4; ui++ {
